@@ -307,6 +307,155 @@ def core_tie(chk, rng, n):
                 check_entry(chk, rng, d, entry, again, lib.run_impl("syms", lines, timeout=60, per_job=4))
 
 
+# ---- Layer-B2 tie of the symbol-table model (Lang/Core2Symbols.lean) --------------------------------
+
+# hand-written core2 programs (cf. `C13.exProg2`, `C13.dupProg2` in Props/C13.lean): inline functions, lets in
+# functions / inline functions / the main expression, let*, shadowing, a function and its let-desugared twin
+# (identical final code), an inline function that is the only caller of a function, dead inline functions
+FIXED_CORE2 = [
+    "(mod (X Y) (include {S}) (defun-inline F (A (B . C)) (let ((Z (+ A B))) (* Z C))) (defun G (N) (F N (c N 3))) "
+    "(defun K (A) (let ((A (+ A 1))) (* A A))) (defun-inline D (Q) (* Q 2)) (defun z (Q) (D Q)) "
+    "(let ((V (G X))) (c (F V (c Y V)) (K Y))))",
+    "(mod (X) (include {S}) (defun F (A) (let ((B (+ A 1))) B)) (defun G (A) (+ A 1)) (+ (F X) (G X)))",
+    "(mod (X Y) (include {S}) (defun-inline F (A B) (+ A B 1)) (defun G (N) (let ((Z (F N 2)) (W (* N N))) "
+    "(let* ((Q (+ Z W)) (R (* Q Q))) (c Q R)))) (let ((V (G X))) (c V (F Y 3))))",
+    "(mod (X) (include {S}) (defun hidden (A) (* A 3)) (defun-inline viaInline (A) (hidden (+ A 1))) (viaInline X))",
+    "(mod (X) (include {S}) (defun-inline only (A) (+ A 1)) (only (only X)))",
+    "(mod (X) (include {S}) (defun f1 (A) (let ((B (* A 2))) (let ((A (+ B 1))) (c A B)))) "
+    "(defun f2 (A) (let* ((B (* A 2)) (A (+ B 1))) (c A B))) (c (f1 X) (f2 X)))",
+    "(mod (X) (include {S}) (defun-inline sq (A) (* A A)) (defun sumsq (L) (if L (+ (sq (f L)) (sumsq (r L))) 0)) "
+    "(let ((T (sumsq X))) (sq T)))",
+]
+
+
+def program2_of_text(text, dialect):
+    tree = parse_sexp(text)
+    fns = []
+    for f in tree[1]:
+        if f[0] == "list" and len(f[1]) == 4 and f[1][0][0] == "sym" and f[1][0][1] in ("defun", "defun-inline"):
+            fns.append({"name": f[1][1][1], "inline": f[1][0][1] == "defun-inline", "shape": shape_of_pattern(f[1][2]),
+                        "pattern": f[1][2]})
+    return {"tree": tree, "text": progen.text(tree), "rich": progen.rich(tree), "dialect": dialect,
+            "nfns": len(fns), "fns": fns, "pattern": tree[1][1], "features": ["inlines", "lets"]}
+
+
+def gen_core2_many(rng, d, nf):
+    """a core2 program with `nf` functions, about a third of them inline, bodies with lets, most of them called
+    from the main expression (often through a let)."""
+    g = progen.ProgGen(rng, d, compilers.CORE2_DENSE)
+    pat, types, argv, shape = g.pattern(rng.choice([1, 2, 3]), prefix="P")
+    helpers = []
+    for _ in range(nf):
+        r = rng.random()
+        helpers.append(g.make_recursive() if r < 0.15 else g.make_function(r > 0.65))
+    sc = progen.Scope(types)
+    parts = [g.expr(sc, rng.choice(["int", "any", "ilist"]), rng.randint(1, 2))]
+    for f in g.fns:
+        if rng.random() < 0.75:
+            c = g.callform(sc, f, 1)
+            if c is not None:
+                parts.append(c)
+    body = parts[0] if len(parts) == 1 else progen.L(progen.S("list"), *parts)
+    forms = [progen.S("mod"), pat, progen.L(progen.S("include"), progen.S(progen.SIGILS[d]))] + helpers + [body]
+    tree = ("list", forms, None)
+    return {"tree": tree, "pattern": pat, "argv": argv, "types": types, "features": sorted(g.used_features), "dialect": d,
+            "nfns": len(g.fns), "shape": shape, "text": progen.text(tree), "rich": progen.rich(tree),
+            "fns": [{"name": f["name"], "inline": f["inline"], "shape": f["shape"], "pattern": f["pattern"]} for f in g.fns]}
+
+
+def core2_tie(chk, rng, n):
+    """`Core2.compileCore2Syms` with H = sha256 (modeld core2syms) must equal, on the modelled key families,
+    the table the real compiler returns (cvh coresyms) for programs of the core2 language (core + defun-inline +
+    let / let*, generator strata CORE2_INLINES / CORE2_DENSE) — in particular NO entry for inline functions and
+    for the `letbinding_$_N` helpers of hoisted lets — and the extraction chain must agree for every function key;
+    the names of the model's `Core2.emitted` must be exactly the values under the 64-hex keys unless two emitted
+    functions have the same code hash."""
+    for d in ("cl21", "strict21"):
+        progs = [program2_of_text(t.replace("{S}", progen.SIGILS[d]), d) for t in FIXED_CORE2]
+        nfixed = len(progs)
+        progs += compilers.gen_programs(rng, d, n, nargs=1, features=compilers.CORE2_INLINES)
+        progs += compilers.gen_programs(rng, d, n, nargs=1, features=compilers.CORE2_DENSE)
+        progs += compilers.gen_programs(rng, d, n // 2, nargs=1, features=compilers.CORE2_FEATURES)
+        progs += [gen_core2_many(rng, d, rng.randint(2, 6)) for _ in range(n)]
+        mo = lib.run_model("core2syms", [p["rich"] for p in progs], per_job=20)
+        # call-by-name expansion can blow the emitted code up: only programs below a size bound go to the real compiler
+        sel = [i for i, a in enumerate(mo) if a.startswith("K ") and len(a) <= 3 * compilers.CORE2_MAX_LINE]
+        for i, a in enumerate(mo):
+            af = a.split()
+            chk.count(f"core2syms:{d}:model-{af[0] if af else 'none'}")
+            if i < nfixed and (not af or af[0] != "K"):
+                chk.fail("correspondence", "corr:core2-symbols-fixed", {"dialect": d, "program": progs[i]["text"]},
+                         f"hand-written core2 program is not accepted by the model: {a[:100]}")
+        bad = []
+        for entry in ("file:000", "text:O0"):
+            io = lib.run_impl("coresyms", [entry + " " + progs[i]["text"].encode().hex() for i in sel], per_job=4, timeout=60)
+            if entry == "file:000":
+                check_calls(chk, rng, d, entry, [progs[i] for i in sel], io)
+            for i, b in zip(sel, io):
+                p, a = progs[i], mo[i]
+                af, bf = a.split(), b.split()
+                chk.note_case(("core2syms", entry, p["text"]), True)
+                if af[1] != "wf":
+                    chk.fail("correspondence", "corr:core2-progWF", {"program": p["text"]},
+                             "generated core2 program does not satisfy the theorems' hypothesis Core2.progWF")
+                if not bf or bf[0] != "S":
+                    chk.count(f"core2syms:{d}:{entry}:impl-{bf[0] if bf else 'none'}")
+                    if bf and bf[0] == "E":
+                        chk.fail("correspondence", "corr:core2-symbols-impl-rejects", {"dialect": d, "entry": entry, "program": p["text"]}, b[:200])
+                    continue
+                nkeys = 0 if af[4] == "-" else len(af[4].split(","))
+                chk.count(f"core2syms:{d}:{entry}:function-keys={min(nkeys, 8)}")
+                ninl = sum(1 for f in p["fns"] if f["inline"])
+                nlet = p["text"].count("(let ") + p["text"].count("(let* ")
+                chk.count(f"core2syms:{d}:{entry}:inline-functions={min(ninl, 4)}")
+                chk.count(f"core2syms:{d}:{entry}:lets={min(nlet, 6)}")
+                if af[2:5] == bf[1:]:
+                    chk.count(f"core2syms:{d}:{entry}:equal")
+                    chk.cov["traces_validated_against_impl"] = chk.cov.get("traces_validated_against_impl", 0) + 1
+                else:
+                    what = ["program", "table", "calls"]
+                    diff = [w for w, x, y in zip(what, af[2:5], bf[1:]) if x != y]
+                    chk.count(f"core2syms:{d}:{entry}:DIFFER:{'+'.join(diff)}")
+                    chk.fail("correspondence", "corr:core2-symbols:" + "+".join(diff),
+                             {"dialect": d, "entry": entry, "program": p["text"]},
+                             {w: {"model": x[:600], "impl": y[:600]} for w, x, y in zip(what, af[2:5], bf[1:]) if x != y})
+                    bad.append((d, entry, p))
+                # implementation-only oracle of the absence clauses: no inline function, no synthesised helper is named
+                table = dict(kv.split(":", 1) for kv in bf[2].split(",")) if bf[2] != "-" else {}
+                named = {bytes.fromhex(v).decode("latin1") for k, v in table.items() if HEX64.match(k)}
+                inl = {f["name"] for f in p["fns"] if f["inline"]}
+                user = {f["name"] for f in p["fns"]}
+                for nm in sorted(named & inl):
+                    chk.fail("oracle", "syms:inline-function-named", {"dialect": d, "entry": entry, "program": p["text"], "function": nm},
+                             "the table names an inline function")
+                for nm in sorted(named - user):
+                    chk.fail("oracle", "syms:unknown-name", {"dialect": d, "entry": entry, "program": p["text"], "name": nm},
+                             "the table names a function that is not written in the source (core2 program: let helpers are inline)")
+                # model-internal consistency: `Core2.emitted` / `Core2.codeOf` (the theorems' vocabulary) vs the table
+                if len(af) > 5:
+                    em = [] if af[5] == "-" else [x.split(":") for x in af[5].split(",")]
+                    mt = dict(kv.split(":", 1) for kv in af[3].split(","))
+                    for nmhex, h in em:
+                        if h not in mt:
+                            chk.fail("correspondence", "corr:core2-emitted-without-entry", {"program": p["text"]},
+                                     f"model: emitted function {bytes.fromhex(nmhex)!r} has no entry under its code hash")
+                    hs = [h for _, h in em]
+                    if len(set(hs)) == len(hs) and sorted(x for x, _ in em) != sorted(v for k, v in mt.items() if HEX64.match(k)):
+                        chk.fail("correspondence", "corr:core2-emitted-names", {"program": p["text"]},
+                                 "model: names under the hash keys differ from Core2.emitted although all code hashes differ")
+        if mo:
+            chk.sample({"core2_program": progs[0]["text"][:400], "model_core2syms": mo[0][-400:]})
+        # the property-level oracle on the hand-written programs, a slice of the generated ones and every disagreement
+        orac = [progs[i] for i in sel if i < nfixed] + [progs[i] for i in sel if i >= nfixed][:max(20, n // 3)]
+        lines = ["file:000 " + p["text"].encode().hex() for p in orac]
+        check_entry(chk, rng, d, "file:000", orac, lib.run_impl("syms", lines, timeout=60, per_job=4))
+        for entry in ("file:000", "text:O0"):
+            again = [p for (d2, e2, p) in bad if d2 == d and e2 == entry and p not in orac]
+            if again:
+                lines = [entry + " " + p["text"].encode().hex() for p in again]
+                check_entry(chk, rng, d, entry, again, lib.run_impl("syms", lines, timeout=60, per_job=4))
+
+
 def run(chk):
     rng = chk.rng
     quick = chk.tier == "quick"
@@ -320,12 +469,18 @@ def run(chk):
                        "duplicated function, hand-written witnesses) x {cl21, strict-cl21} x {compile_file, CLI -O0}: "
                        "model table (H = sha256), emitted program, path_to_function path and rewritten call program "
                        "must equal the real ones on the key families <hash>, <hash>_arguments, <hash>_left_env, "
-                       "__chia__main_arguments")
+                       "__chia__main_arguments; "
+                       "[tie, core2] the same for core2-language programs (core + defun-inline + let / let*; generator strata "
+                       "CORE2_INLINES, CORE2_DENSE, CORE2_FEATURES, 2..6-function programs with inline and non-inline functions and lets, hand-written witnesses) x {cl21, strict-cl21} x "
+                       "{compile_file, CLI -O0}: Core2.compileCore2Syms (modeld core2syms) vs cvh coresyms, plus the "
+                       "implementation-only check that no inline function and no compiler-generated helper is named")
     ok, out = lib.build_harness()
     if not ok:
         chk.fail("proof", "harness-build", {}, out[-1500:])
         return
     n = 90 if quick else 2000
+    import time as _time
+    t_start = _time.time()
     for d in progen.MODERN:
         feats = ["functions", "inlines", "lets", "destructure", "captures", "constants", "literals", "qq", "assign"]
         progs = compilers.gen_programs(rng, d, n, nargs=1, features=feats)
@@ -349,11 +504,21 @@ def run(chk):
             outs = lib.run_impl("syms", lines, timeout=60, per_job=4)
             check_entry(chk, rng, d, entry, progs, outs)
     import random
+    import time
+    ph = chk.cov.setdefault("phase_seconds", {})
+    ph["oracle"] = round(time.time() - t_start, 1)
+    t1 = time.time()
     core_tie(chk, random.Random(chk.seed ^ 0xC13), 80 if quick else 3000)
+    ph["core_tie"] = round(time.time() - t1, 1)
+    t1 = time.time()
+    core2_tie(chk, random.Random(chk.seed ^ 0x2C13), 30 if quick else 2000)
+    ph["core2_tie"] = round(time.time() - t1, 1)
     chk.cov["modelled_not_verified"] = [
-        "theorems cover the core language (mod, non-inline functions, operators, lazy if, calls) in non-optimising builds; "
-        "inline functions, let/assign, lambdas, constants, macros, optimising builds and the classic compiler are decided by "
-        "the hash/arguments/run oracle only",
+        "theorems cover the core2 language (mod, non-inline and inline functions, let / let* with shadowing, operators, "
+        "lazy if, calls) in non-optimising builds of cl21 / strict-cl21; "
+        "assign, lambdas, constants, macros, &rest calls, cl22+ dialects, optimising builds and the classic compiler are "
+        "decided by the hash/arguments/run oracle only",
+        "core2 programs whose call-by-name expansion exceeds the driver's size budget (`toolarge`) are not tied",
         "symbol-table key `source_file` (the caller's file name) is not modelled",
         "extract_program_and_env / rewrite_in_program are modelled on the CLVM value (Val) of the program; they are tied "
         "on compiled programs only (SExp nilp of a non-empty zero atom is outside the tie)",
